@@ -395,11 +395,28 @@ class ModuleScan(ast.NodeVisitor):
         def base_of_expr(e, depth=0):
             if e is None or depth > 6:
                 return ("local", "?")
+            if isinstance(e, ast.BoolOp):           # `a or {}`: either operand
+                best = ("fresh", "literal")
+                for v_ in e.values:
+                    b_ = base_of_expr(v_, depth + 1)
+                    if BASES.index(b_[0]) < BASES.index(best[0]):
+                        best = b_
+                return best
             if isinstance(e, (ast.Dict, ast.List, ast.Set, ast.ListComp, ast.DictComp, ast.SetComp, ast.Constant, ast.Tuple,
-                              ast.JoinedStr, ast.BinOp, ast.Compare, ast.BoolOp, ast.UnaryOp, ast.GeneratorExp)):
+                              ast.JoinedStr, ast.BinOp, ast.Compare, ast.UnaryOp, ast.GeneratorExp)):
                 return ("fresh", "literal")
             rt = root_and_chain(e)
             if rt is None:
+                inner = e
+                while True:                             # (a or {}).get(k): look through the chain at the parenthesised operand
+                    if isinstance(inner, (ast.Subscript, ast.Attribute, ast.Starred)):
+                        inner = inner.value
+                    elif isinstance(inner, ast.Call) and isinstance(inner.func, ast.Attribute) and inner.func.attr in ("get", "setdefault", "view", "__getitem__"):
+                        inner = inner.func.value
+                    else:
+                        break
+                if inner is not e and isinstance(inner, (ast.BoolOp, ast.IfExp)):
+                    return base_of_expr(inner, depth + 1)
                 if isinstance(e, ast.Call):
                     return ("fresh", "call")
                 if isinstance(e, ast.IfExp):
@@ -535,7 +552,8 @@ class ModuleScan(ast.NodeVisitor):
                                           "end_line": getattr(st, "end_lineno", n.lineno), "base": b[0], "base_name": b[1],
                                           "target": norm_target(f.value),
                                           "pattern": {"setdefault": "check_then_act", "add": "idem_store"}.get(f.attr, "mutcall"),
-                                          "guard_line": None, "detail": f.attr})
+                                          "guard_line": None, "detail": f.attr,
+                                          "key": (n.args[0].value if n.args and isinstance(n.args[0], ast.Constant) and isinstance(n.args[0].value, str) else None)})
                     if isinstance(f, ast.Name) and f.id in ("setattr", "delattr") and n.args:
                         b = base_of_expr(n.args[0])
                         key = unparse(n.args[1]) if len(n.args) > 1 else "?"
@@ -753,3 +771,72 @@ if __name__ == "__main__":
         for l in inv["locations"]:
             print("%-15s %-18s %-40s %4d %s" % (l["kind"], l["module"], l["name"][:40], l["line"], l["valkind"]))
     print(len(inv["locations"]), "locations", len(inv["sites"]), "sites", file=sys.stderr)
+
+
+# ---------------------------------------------------------------------------------------------
+# native modules: module-level C state of the .pyx sources and of the generated .c
+# ---------------------------------------------------------------------------------------------
+
+def native_state(repo):
+    """Module-level state of the Cython modules, from the .pyx source and the generated .c:
+       * every module-level `cdef <type> name [= ...]` and plain `name = ...` of the .pyx, with the statements INSIDE functions
+         of the .pyx that store into it (rebinding, item store, mutating method call);
+       * its C symbol in the .c (`static <type> __pyx_v_<module>_<name>`) with the number of C statements that store into it
+         outside the module-init function (`__pyx_pymod_exec_<mod>`) - 0 means: written at import time only = a constant;
+       * every other `static` array/buffer of the .c that is not Cython's own (`__pyx_`/`__Pyx` prefix, const string table).
+    -> {"globals": [...], "foreign_static_buffers": [...]}"""
+    import re
+    pkg = os.path.join(repo, "fastparquet")
+    out, foreign = [], []
+    for f in sorted(os.listdir(pkg)):
+        if not f.endswith(".pyx"):
+            continue
+        mod = f[:-4]
+        lines = open(os.path.join(pkg, f)).read().split("\n")
+        names = []
+        for ln, line in enumerate(lines, 1):
+            m = re.match(r"^cdef\s+(?!class\b|extern\b|inline\b|struct\b|enum\b|packed\b)([\w\[\]:\*, ]+?)\s+([A-Za-z_]\w*)\s*(=.*)?$", line)
+            if m and "(" not in line.split("=")[0]:
+                names.append({"module": mod, "name": m.group(2), "ctype": m.group(1).strip(), "line": ln, "cdef": True})
+                continue
+            m = re.match(r"^([A-Za-z_]\w*)\s*=[^=]", line)
+            if m:
+                names.append({"module": mod, "name": m.group(1), "ctype": "object", "line": ln, "cdef": False})
+        for g in names:
+            nm = re.escape(g["name"])
+            pat = re.compile(r"^\s+(?:global\s+.*\b%s\b|%s\s*(?:\[[^\]]*\])?\s*(?:[-+*/|&^]|//|<<|>>)?=[^=]|%s\.(?:%s)\(|del\s+%s\b)" % (
+                nm, nm, nm, "|".join(sorted(MUTATORS)), nm))
+            g["pyx_stores_in_functions"] = [i for i, l in enumerate(lines, 1) if pat.match(l) and i != g["line"]]
+        cpath = os.path.join(pkg, mod + ".c")
+        if os.path.exists(cpath):
+            ctext = open(cpath, errors="replace").read().split("\n")
+            # which C function every line belongs to (import-time functions: module exec and Cython's modinit helpers)
+            cur, owner = None, []
+            for l in ctext:
+                m = re.match(r"^(?:static\s+)?[\w \*]+?\b(\w+)\s*\([^;]*$", l)
+                if m and not l.startswith((" ", "\t", "#", "/")) and not l.rstrip().endswith(";"):
+                    cur = m.group(1)
+                owner.append(cur)
+            is_init = lambda fn: fn is not None and (fn.startswith("__pyx_pymod_exec") or fn.startswith("__Pyx_modinit") or fn.startswith("__pyx_pymod_create"))
+            for g in names:
+                sym = None
+                for l in ctext:
+                    m = re.match(r"^static\s+.*?\b(__pyx_v_\d+fastparquet_\d+%s_%s)\b" % (mod, re.escape(g["name"])), l)
+                    if m:
+                        sym = m.group(1)
+                        break
+                g["c_symbol"] = sym
+                if sym is None:
+                    g["c_stores_outside_init"] = None       # a Python-level module attribute (in the module dict)
+                    continue
+                st = re.compile(r"(?:\b%s\s*=[^=]|(?:__Pyx_X?DECREF_SET|PyDict_SetItem|PyObject_SetItem|PyDict_DelItem|PyObject_DelItem|PyDict_Clear|__Pyx_PyDict_SetDefault|PyDict_Update|PyDict_Merge|PyDict_Pop|_PyDict_Pop)\s*\(\s*%s\b)" % (sym, sym))
+                hits = [(i, owner[i]) for i, l in enumerate(ctext) if st.search(l) and not l.startswith("static ")]
+                g["c_stores_outside_init"] = sum(1 for i, fn in hits if not is_init(fn))
+                g["c_stores_in_init"] = sum(1 for i, fn in hits if is_init(fn))
+                g["c_store_functions"] = sorted(set(str(fn) for i, fn in hits))
+            for i, l in enumerate(ctext, 1):
+                m = re.match(r"^static\s+(?!const\b)([\w \*]+?)\s+(\w+)\s*\[[^\]]*\]\s*(=|;)", l)
+                if m and not m.group(2).startswith(("__pyx_", "__Pyx", "cstring")):
+                    foreign.append({"module": mod, "name": m.group(2), "line": i})
+        out += names
+    return {"globals": out, "foreign_static_buffers": foreign}
